@@ -187,23 +187,21 @@ Example C07_nonvacuous_liouvillian :
 Proof. by move=> R conj n c; split; [exact: herm1 | rewrite /= eqxx]. Qed.
 
 (* ---- Bloch-Redfield, matrix-operation route (_br_term_data, no cut-off) ----
-   What the generated term does: it acts as the documented expression
-   conjugated by transposition, i.e. as the term of the TRANSPOSED coupling
-   operator.  (Full statement wanted by the property, NOT provable for the
-   current code, see C07_br_dense_refuted:
-     act (gen_br_term_data h A S) X = br_rhs h (oden A) (oden S) X.)  *)
-Theorem C07_br_data_acts_transposed :
+   The generated term acts on the column-stacked operator as the documented
+   Bloch-Redfield expression
+     1/2 [ (A o S^T) X A + A X (A o S) - A (A o S^T) X - X (A o S) A ].     *)
+Theorem C07_br_data_action :
   forall (R : fieldType) (conj : {rmorphism R -> R}) n (h : R) (A S : Oexpr R n) X,
     den conj (gen_br_term_data h A S) *m cvec X
-    = cvec ((br_rhs h (oden conj A) (oden conj S) X^T)^T).
+    = cvec (br_rhs h (oden conj A) (oden conj S) X).
 Proof. by move=> *; rewrite den_act act_br_term_data. Qed.
-Print Assumptions C07_br_data_acts_transposed.
+Print Assumptions C07_br_data_action.
 
-(* the generator-level invariants do hold for it: traceless output ... *)
+(* generator-level invariants: traceless output ... *)
 Theorem C07_br_data_traceless :
   forall (R : fieldType) (conj : {rmorphism R -> R}) n (h : R) (A S : Oexpr R n) X,
     \tr (act conj (gen_br_term_data h A S) X) = 0.
-Proof. by move=> *; rewrite act_br_term_data mxtrace_tr tr_br_rhs. Qed.
+Proof. by move=> *; rewrite act_br_term_data tr_br_rhs. Qed.
 Print Assumptions C07_br_data_traceless.
 
 (* ... and, for a Hermitian coupling operator and a real spectrum,
@@ -217,9 +215,7 @@ Theorem C07_br_data_hermiticity_preserving :
       = act conj (gen_br_term_data h A S) (dag conj X).
 Proof.
 move=> R conj n h cK hh A S X HA HS; rewrite !act_br_term_data.
-have dT : forall M : 'M[R]_n, dag conj M^T = (dag conj M)^T.
-  by move=> M; rewrite /dag map_trmx !trmxK.
-by rewrite dT (dag_br_rhs cK hh _ HA HS) dT.
+exact: (dag_br_rhs cK hh _ HA HS).
 Qed.
 Print Assumptions C07_br_data_hermiticity_preserving.
 
@@ -230,8 +226,7 @@ Example C07_nonvacuous_br :
 Proof. by move=> R conj n; split; [exact: herm1 | exact: cj1]. Qed.
 
 (* white spectrum S(w) = g: the documented Bloch-Redfield expression is the
-   Lindblad dissipator g * D[A] (specification-level sanity theorem; it is
-   the oracle used on the implementation) *)
+   Lindblad dissipator g * D[A] ... *)
 Theorem C07_br_flat_spectrum_is_lindblad :
   forall (R : fieldType) (conj : {rmorphism R -> R}) n (h : R),
     h + h = 1 ->
@@ -240,13 +235,29 @@ Theorem C07_br_flat_spectrum_is_lindblad :
 Proof. move=> R conj n h hh A X g HA; exact: br_rhs_flat. Qed.
 Print Assumptions C07_br_flat_spectrum_is_lindblad.
 
+(* ... hence so is the generated tensor: white noise gives the same matrix
+   action as lindblad_dissipator(sqrt(g) A) *)
+Theorem C07_br_data_white_noise_is_lindblad :
+  forall (R : fieldType) (conj : {rmorphism R -> R}) n (h : R) (expi : R -> R),
+    h + h = 1 -> expi 0 = 1 ->
+    forall (A : Oexpr R n) (g : R) X, is_herm conj (oden conj A) ->
+      den conj (gen_br_term_data h A (OMx (const_mx g))) *m cvec X
+      = g *: (den conj (gen_lindblad_dissipator h expi A A 0) *m cvec X).
+Proof.
+move=> R conj n h expi hh e0 A g X HA.
+rewrite !den_act act_br_term_data act_dissipator //= e0 -cvec_scale.
+by rewrite (br_rhs_flat hh _ _ HA).
+Qed.
+Print Assumptions C07_br_data_white_noise_is_lindblad.
+
 (* ---- Bloch-Redfield, element formula of _br_term_dense (Tier B) ----
-   REFUTED on the current code: there is a Hermitian coupling operator for
-   which the tensor does not act on the column-stacked operator as the
-   documented expression (it uses the row-major index a*n+b). *)
-Theorem C07_br_dense_refuted :
-  exists (n : nat) (A : mat G) (S K : mat BinNums.Z) (X : mat G),
-    is_hermb n A = true /\
-    meqb n (apply_super n (br_dense2 n A S K None) X) (br_expr2 n A S X) = false.
-Proof. exact: br_dense_refuted. Qed.
-Print Assumptions C07_br_dense_refuted.
+   bounded domain (the bound is in the statement): for every 2x2 Gaussian
+   matrix with entries in gvals (Hermitian or not), both spectra of specs2 and
+   every matrix unit, the tensor applied to the column-stacked operator is the
+   documented expression; all dimensions: exact correspondence of this model
+   with the Cython kernel on every run (tools/c07.py). *)
+Theorem C07_br_dense_small_domain :
+  forall A S X, List.In A mats2 -> List.In S specs2 -> List.In X units2 ->
+    meqb 2 (apply_super 2 (br_dense2 2 A S wK None) X) (br_expr2 2 A S X) = true.
+Proof. exact: br_dense_small_domain_forall. Qed.
+Print Assumptions C07_br_dense_small_domain.
